@@ -827,6 +827,215 @@ Proof.
       split; [apply star_refl|]. intros _. split; [lia|]. intros Z. lia.
 Qed.
 
+(* ---- (3b) an ExecuteTxs call that fails; a reap in the middle of a produce step ------------------------------------ *)
+Lemma until_exec_cut L : exists k, fst (until_exec L) = cut k false L.
+Proof.
+  induction L as [|[w|x] L [k IH]].
+  - exists 0. reflexivity.
+  - exists (S k). cbn [until_exec cut]. destruct (until_exec L) as [r e]. cbn [fst] in *. rewrite IH. reflexivity.
+  - exists 0. reflexivity.
+Qed.
+
+(* the whole reap as one state transformer *)
+Definition RP (max : N) (s : st) : st := apply_acts (take_all s) (reap_acts max s).
+
+Lemma RP_eq max s :
+  RP max s = match new_txs s with
+             | [] => take_all s
+             | n => if full max (queue s) then take_all s
+                    else set_seen (rev n ++ seen s) (set_queue (queue s ++ [n]) (take_all s))
+             end.
+Proof.
+  unfold RP, reap_acts. destruct (new_txs s) as [|t n] eqn:En; [reflexivity|].
+  destruct (full max (queue s)); [reflexivity|].
+  rewrite apply_acts_cons, seen_marks. reflexivity.
+Qed.
+
+Lemma step_reap_RP max gt s : up s = true -> step max gt s (IRun AReap) = RP max s.
+Proof. intros Hup. cbn [step item_acts acts_of pre fst]. rewrite Hup. reflexivity. Qed.
+
+(* the acts of a produce step that commute with a reap: they touch neither the queue nor the seen-set nor the
+   mempool ([AExec []] executes nothing) *)
+Definition quietx (a : act) : Prop :=
+  match a with
+  | AW WMeta | AW (WBlock _ _ _ _) | AW (WState _) | AW (WHeight _) | AExec [] => True
+  | _ => False
+  end.
+
+Lemma filter_all {A} (l : list A) : filter (fun _ => true) l = l.
+Proof. induction l as [|x l IH]; cbn; [reflexivity | rewrite IH; reflexivity]. Qed.
+
+Lemma exec_nil s : apply_act s (AExec []) = s.
+Proof. cbn [apply_act memb existsb negb]. rewrite filter_all. destruct s; reflexivity. Qed.
+
+Lemma RP_quiet max s a : quietx a -> RP max (apply_act s a) = apply_act (RP max s) a.
+Proof.
+  intros Hq. destruct a as [w|x].
+  - destruct w; try contradiction; rewrite !RP_eq; unfold new_txs, take_all;
+      cbn [apply_act apply_wr seen mem queue taken set_blocks set_sh set_th];
+      destruct (select (seen s) [] (mem s)); try reflexivity;
+      destruct (full max (queue s)); reflexivity.
+  - destruct x; [|contradiction]. rewrite !exec_nil. reflexivity.
+Qed.
+
+Lemma RP_quiets max l : Forall quietx l -> forall s, RP max (apply_acts s l) = apply_acts (RP max s) l.
+Proof.
+  induction 1 as [|a l Ha Hl IH]; intros s; [reflexivity|].
+  rewrite !apply_acts_cons, IH, RP_quiet by exact Ha. reflexivity.
+Qed.
+
+Lemma RP_shift max s A Bq Br : Forall quietx Bq ->
+  apply_acts (RP max (apply_acts s A)) (Bq ++ Br) = apply_acts (RP max (apply_acts s (A ++ Bq))) Br.
+Proof. intros H. rewrite (apply_acts_app s A Bq), (RP_quiets max Bq H), <- apply_acts_app. reflexivity. Qed.
+
+Lemma reap_no_del_block max s : has_del (reap_acts max s) = false /\ has_block (reap_acts max s) = false.
+Proof.
+  unfold reap_acts. destruct (new_txs s) as [|t n]; [split; reflexivity|].
+  destruct (full max (queue s)); [split; reflexivity|].
+  set (m := t :: n). split.
+  - cbn [has_del existsb is_del orb]. apply has_del_marks.
+  - cbn [has_block existsb orb]. induction m; [reflexivity | assumption].
+Qed.
+
+Lemma lossy_mid A R B : has_del R = false -> has_block R = false -> lossy (A ++ R ++ B) = lossy (A ++ B).
+Proof.
+  intros H1 H2. unfold lossy. rewrite !has_del_app, !has_block_app, H1, H2. reflexivity.
+Qed.
+
+Lemma Forall_skipn {A} (P : A -> Prop) n : forall l, Forall P l -> Forall P (skipn n l).
+Proof. induction n as [|n IH]; intros l H; [exact H|]. destruct H; [constructor | cbn; apply IH; assumption]. Qed.
+
+Lemma mid_state max gt s ts p : up s = true ->
+  step max gt s (IMid ts p) = apply_acts (RP max (apply_acts s (mid_before s ts p))) (mid_after s ts p).
+Proof. intros Hup. cbn [step]. rewrite Hup. reflexivity. Qed.
+
+Lemma mid_lossy max gt s ts p : up s = true ->
+  lossy (item_acts max gt s (IMid ts p)) = lossy (fst (produce_acts ts s)).
+Proof.
+  intros Hup. cbn [item_acts]. rewrite Hup. destruct (reap_no_del_block max (apply_acts s (mid_before s ts p))) as [H1 H2].
+  unfold mid_reap. rewrite lossy_mid by assumption. unfold mid_before, mid_after. rewrite firstn_skipn. reflexivity.
+Qed.
+
+Lemma reap_run_refines max gt s : shape s -> up s = true ->
+  shape (step max gt s (IRun AReap)) /\ star false false (absf s) (absf (step max gt s (IRun AReap))).
+Proof.
+  intros [Hd Hu] Eup. cbn [step item_acts acts_of pre fst]. rewrite Eup.
+  destruct (reap_effect max s 0 false false Eup) as (A & B & C & D & E & F). cbn iota in A, B, C, D, E, F.
+  unfold pre in B, C, D, E, F. rewrite Eup in B, C, D, E, F.
+  cbn [fst]. split; [|exact F]. split.
+  - destruct Hd as [Hd1 Hd2]. split; [rewrite B, C, D; exact Hd1 | unfold block_txs; rewrite B, C; exact Hd2].
+  - intros _. rewrite B, D. apply Hu; exact Eup.
+Qed.
+
+Lemma produce_run_refines max gt s ts : shape s -> up s = true ->
+  shape (step max gt s (IRun (AProduce ts))) /\ up (step max gt s (IRun (AProduce ts))) = true /\
+  star (lossy (fst (produce_acts ts s))) false (absf s) (absf (step max gt s (IRun (AProduce ts)))).
+Proof.
+  intros Hsh Eup. cbn [step item_acts acts_of pre fst]. rewrite Eup.
+  destruct (produce_effect ts s 10 true Hsh Eup) as (A & B & C & D). cbn zeta in A, B, C, D.
+  rewrite produce_acts_full in A, B, C, D.
+  destruct (produce_acts ts s) as [L o] eqn:Ep. cbn [fst] in *.
+  split; [split; [exact A | intros _; exact D] | split; [exact B | exact C]].
+Qed.
+
+Lemma step_produce_acts max gt s ts : up s = true ->
+  step max gt s (IRun (AProduce ts)) = apply_acts s (fst (produce_acts ts s)).
+Proof.
+  intros Hup. cbn [step item_acts acts_of pre fst]. rewrite Hup. destruct (produce_acts ts s); reflexivity.
+Qed.
+
+Lemma up_RP max s : up (RP max s) = up s.
+Proof.
+  rewrite RP_eq. unfold take_all. destruct (new_txs s); [reflexivity|]. destruct (full max (queue s)); reflexivity.
+Qed.
+
+(* the reap falls behind every act of the step that does not commute with it: the step, then the reap *)
+Lemma mid_sequential max gt s ts p : shape s -> up s = true ->
+  Forall quietx (mid_after s ts p) ->
+  shape (step max gt s (IMid ts p)) /\
+  star (lossy (item_acts max gt s (IMid ts p))) false (absf s) (absf (step max gt s (IMid ts p))).
+Proof.
+  intros Hsh Hup Hq. rewrite mid_lossy, mid_state by exact Hup.
+  rewrite <- RP_quiets by exact Hq. rewrite <- apply_acts_app. unfold mid_before, mid_after. rewrite firstn_skipn.
+  rewrite <- (step_produce_acts max gt s ts Hup).
+  destruct (produce_run_refines max gt s ts Hsh Hup) as (A & B & C).
+  rewrite <- (step_reap_RP max gt _ B).
+  destruct (reap_run_refines max gt _ A B) as (D & E).
+  split; [exact D|]. eapply star_trans; [exact C | eapply star_weaken; [| |exact E]; auto]. intros X; discriminate X.
+Qed.
+
+Lemma mid_effect max gt s ts p : shape s -> up s = true ->
+  shape (step max gt s (IMid ts p)) /\
+  star (lossy (item_acts max gt s (IMid ts p))) false (absf s) (absf (step max gt s (IMid ts p))).
+Proof.
+  intros Hsh Hup.
+  assert (Htl : Forall quietx (tl (fst (produce_acts ts s))) ->
+            shape (step max gt s (IMid ts p)) /\
+            star (lossy (item_acts max gt s (IMid ts p))) false (absf s) (absf (step max gt s (IMid ts p)))).
+  { intros H. apply mid_sequential; [exact Hsh | exact Hup |]. unfold mid_after.
+    destruct (fst (produce_acts ts s)) as [|a L]; [constructor|]. cbn [skipn tl] in *. apply Forall_skipn; exact H. }
+  pose proof Hsh as [[Hd H0] Hu].
+  unfold produce_acts in Htl. cbv zeta in Htl.
+  destruct (match th s with O => Some None | S k => match nth_error (blocks s) k with Some b => Some (Some (b_time b)) | None => None end end) as [lt|] eqn:Elt;
+    [|apply Htl; constructor].
+  destruct (nth_error (blocks s) (th s)) as [pb|] eqn:Ep.
+  { apply Htl. destruct (sh s =? th s); cbn [fst tl commit_tail]; repeat constructor. }
+  destruct (queue s) as [|b q] eqn:Eq.
+  { apply Htl. destruct (before ts lt); cbn [fst tl commit_tail]; repeat constructor. }
+  destruct (before ts lt) eqn:Eb.
+  { apply Htl. cbn [fst tl]. repeat constructor. }
+  clear Htl.
+  (* a batch is taken and committed: [QDel b; Meta; Block early; Exec b; Block final; State; Height] *)
+  assert (Hlen : length (blocks s) = th s).
+  { apply nth_error_None in Ep. destruct Hd as [[_ [?|?]]|[_ ?]]; lia. }
+  assert (Hs : sh s = th s) by (destruct Hd as [[? _]|[_ ?]]; [assumption | lia]).
+  set (h := th s) in *.
+  assert (EL : fst (produce_acts ts s) = AW (WQDel b) :: AW WMeta :: AW (WBlock (S h) b ts false) :: commit_tail (S h) b ts).
+  { unfold produce_acts. cbv zeta. fold h. rewrite Elt, Ep, Eq, Eb. reflexivity. }
+  assert (Hearly : shape (apply_acts (RP max (apply_acts s [AW (WQDel b); AW WMeta; AW (WBlock (S h) b ts false)])) (commit_tail (S h) b ts)) /\
+            star false false (absf s) (absf (apply_acts (RP max (apply_acts s [AW (WQDel b); AW WMeta; AW (WBlock (S h) b ts false)])) (commit_tail (S h) b ts)))).
+  { (* the reap falls between the early block save and the execution: the step up to the early save, the reap,
+       then the step that finds the pending block *)
+    set (eb := {| b_txs := b; b_time := ts; b_signed := false |}).
+    set (s_pre := apply_acts s [AW (WQDel b); AW WMeta; AW (WBlock (S h) b ts false)]).
+    assert (Hpre : s_pre = apply_acts s (cut 3 false (fst (produce_acts ts s)))) by (rewrite EL; reflexivity).
+    destruct (produce_effect ts s 3 false Hsh Hup) as (A & B & C & D). cbn zeta in A, B, C, D. rewrite <- Hpre in A, B, C, D.
+    assert (Hl0 : lossy (cut 3 false (fst (produce_acts ts s))) = false) by (rewrite EL; reflexivity). rewrite Hl0 in C.
+    assert (Hsp : shape s_pre) by (split; [exact A | intros _; exact D]).
+    rewrite <- (step_reap_RP max gt s_pre B).
+    destruct (reap_run_refines max gt s_pre Hsp B) as (E & F).
+    assert (Hbr : blocks (step max gt s_pre (IRun AReap)) = blocks s ++ [eb] /\ sh (step max gt s_pre (IRun AReap)) = h /\ th (step max gt s_pre (IRun AReap)) = h).
+    { rewrite step_reap_RP by exact B.
+      destruct (reap_effect max s_pre 0 false false B) as (_ & X1 & X2 & X3 & _). cbn iota in X1, X2, X3.
+      unfold pre in X1, X2, X3. rewrite B in X1, X2, X3. unfold RP, take_all. rewrite X1, X2, X3.
+      subst s_pre. unfold apply_acts. cbn [fold_left apply_act apply_wr blocks sh th set_blocks set_released set_queue pred].
+      fold h. rewrite <- Hlen, set_nth_length. split; [reflexivity | split; [rewrite Hs; symmetry; exact Hlen | reflexivity]]. }
+    assert (Hupr : up (step max gt s_pre (IRun AReap)) = true) by (rewrite step_reap_RP, up_RP by exact B; exact B).
+    set (s_r := step max gt s_pre (IRun AReap)) in *.
+    destruct Hbr as (Hb1 & Hb2 & Hb3).
+    assert (Ept : fst (produce_acts ts s_r) = commit_tail (S h) b ts).
+    { unfold produce_acts. cbv zeta. rewrite Hb1, Hb2, Hb3.
+      assert (X : exists lt', (match h with O => Some None | S k => match nth_error (blocks s ++ [eb]) k with Some b1 => Some (Some (b_time b1)) | None => None end end) = Some lt').
+      { destruct h as [|k]; [eexists; reflexivity|].
+        destruct (nth_error (blocks s ++ [eb]) k) eqn:E0; [eexists; reflexivity | apply nth_error_None in E0; rewrite app_length in E0; cbn in E0; lia]. }
+      destruct X as [lt' ->]. rewrite <- Hlen at 1. rewrite nth_error_snoc, Nat.eqb_refl. reflexivity. }
+    rewrite <- Ept, <- (step_produce_acts max gt s_r ts Hupr).
+    destruct (produce_run_refines max gt s_r ts E Hupr) as (G1 & _ & G3). rewrite Ept in G3.
+    assert (Hl2 : lossy (commit_tail (S h) b ts) = false) by reflexivity. rewrite Hl2 in G3.
+    split; [exact G1 | eapply star_trans; [exact C | eapply star_trans; [exact F | exact G3]]]. }
+  assert (Hl1 : lossy (fst (produce_acts ts s)) = false) by (rewrite EL; reflexivity).
+  destruct p as [|[|[|p]]].
+  4:{ (* after ExecuteTxs: the rest of the step commutes *)
+    apply mid_sequential; [exact Hsh | exact Hup |]. unfold mid_after. rewrite EL. unfold commit_tail.
+    cbn [skipn]. apply Forall_skipn. repeat constructor. }
+  all: rewrite mid_lossy, mid_state, Hl1 by exact Hup; unfold mid_before, mid_after; rewrite EL; cbn [firstn skipn].
+  - change (AW WMeta :: AW (WBlock (S h) b ts false) :: commit_tail (S h) b ts) with ([AW WMeta; AW (WBlock (S h) b ts false)] ++ commit_tail (S h) b ts).
+    rewrite (RP_shift max s [AW (WQDel b)]) by (repeat constructor). exact Hearly.
+  - change (AW (WBlock (S h) b ts false) :: commit_tail (S h) b ts) with ([AW (WBlock (S h) b ts false)] ++ commit_tail (S h) b ts).
+    rewrite (RP_shift max s [AW (WQDel b); AW WMeta]) by (repeat constructor). exact Hearly.
+  - exact Hearly.
+Qed.
+
 Lemma absf_set_up v s : absf (set_up v s) = absf s.
 Proof. reflexivity. Qed.
 
@@ -859,7 +1068,7 @@ Lemma step_refines max gt s it : shape s ->
 Proof.
   intros Hsh. pose proof Hsh as [Hd Hu].
   assert (Hux : forall x, ushape (set_up false x)) by (intros x Z; discriminate Z).
-  destruct it as [t | a | a k e | a k].
+  destruct it as [t | a | a k e | a k | ts | ts p].
   - (* arrive *)
     cbn [step item_acts is_rough is_crash is_fault orb]. split.
     + split; [exact Hd | exact Hu].
@@ -943,6 +1152,20 @@ Proof.
         split; [split; [exact A | intros _; exact D] | exact C].
       * cbn [fst]. assert (E : fault k [] = ([], false)) by (destruct k; reflexivity). rewrite E.
         cbn [fst apply_acts fold_left]. split; [exact Hsh | apply star_refl].
+  - (* ExecuteTxs fails: the step up to the call *)
+    cbn [step item_acts is_rough is_crash is_fault orb]. unfold execfail_acts_of.
+    destruct (up s) eqn:Eup.
+    + destruct (produce_acts ts s) as [L o] eqn:Ep. destruct (until_exec L) as [l' e'] eqn:Eu. cbn [fst].
+      destruct (until_exec_cut L) as [k Hk]. rewrite Eu in Hk. cbn [fst] in Hk.
+      destruct (produce_effect ts s k false Hsh Eup) as (A & B & C & D). cbn zeta in A, B, C, D.
+      rewrite Ep in A, B, C, D. cbn [fst] in A, B, C, D. rewrite <- Hk in A, B, C, D.
+      split; [split; [exact A | intros _; exact D] | exact C].
+    + cbn [fst apply_acts fold_left]. split; [exact Hsh | apply star_refl].
+  - (* a reap in the middle of a produce step *)
+    cbn [is_rough is_crash is_fault orb].
+    destruct (up s) eqn:Eup.
+    + apply mid_effect; assumption.
+    + cbn [step item_acts]. rewrite Eup. split; [exact Hsh | apply star_refl].
 Qed.
 
 (* ---- (4) histories ------------------------------------------------------------------------------------------ *)
@@ -1209,4 +1432,100 @@ Proof.
   intros Hsh. cbn [step item_acts acts_of pre fst]. unfold boot_acts.
   destruct (sh s =? 0) eqn:E; [apply Nat.eqb_eq in E; contradiction|].
   cbn [app]. destruct (th s <? sh s); cbn; repeat split; reflexivity.
+Qed.
+
+(* ---- (8) a failing ExecuteTxs call keeps the batch; a concurrent reap does not change the block ------------------------ *)
+(* what a produce step takes, builds, executes and commits *)
+Definition prod_view (s : st) := (blocks s, sh s, th s, released s, stale s, mem s, up s).
+
+Lemma view_act s1 s2 a : prod_view s1 = prod_view s2 -> prod_view (apply_act s1 a) = prod_view (apply_act s2 a).
+Proof.
+  unfold prod_view. intros H. injection H as H1 H2 H3 H4 H5 H6 H7.
+  destruct a as [w|x]; [destruct w as [b|b| |n x t g|n|n|t| |w]; [| | | | | | | |destruct w]|];
+    cbn [apply_act apply_wr blocks sh th released stale mem up set_queue set_released set_stale set_blocks set_sh set_th set_seen set_mem];
+    congruence.
+Qed.
+
+Lemma view_acts l : forall s1 s2, prod_view s1 = prod_view s2 -> prod_view (apply_acts s1 l) = prod_view (apply_acts s2 l).
+Proof.
+  induction l as [|a l IH]; intros s1 s2 H; [exact H|]. rewrite !apply_acts_cons. apply IH, view_act, H.
+Qed.
+
+Lemma view_RP max s : prod_view (RP max s) = prod_view s.
+Proof.
+  rewrite RP_eq. unfold take_all. destruct (new_txs s); [reflexivity|]. destruct (full max (queue s)); reflexivity.
+Qed.
+
+Lemma mid_same_block max gt s ts p :
+  up s = true -> prod_view (step max gt s (IMid ts p)) = prod_view (step max gt s (IRun (AProduce ts))).
+Proof.
+  intros Hup. rewrite mid_state, step_produce_acts by exact Hup.
+  rewrite (view_acts _ _ _ (view_RP max _)), <- apply_acts_app. unfold mid_before, mid_after. rewrite firstn_skipn. reflexivity.
+Qed.
+
+Lemma mid_same_block_fields max gt s ts p : up s = true ->
+  let s' := step max gt s (IMid ts p) in let s0 := step max gt s (IRun (AProduce ts)) in
+  blocks s' = blocks s0 /\ sh s' = sh s0 /\ th s' = th s0 /\ released s' = released s0 /\ stale s' = stale s0 /\
+  mem s' = mem s0 /\ up s' = up s0 /\
+  fst (observe max gt s (IMid ts p)) = fst (observe max gt s (IRun (AProduce ts))).
+Proof.
+  intros Hup s' s0. pose proof (mid_same_block max gt s ts p Hup) as H. unfold prod_view in H.
+  injection H as H1 H2 H3 H4 H5 H6 H7. repeat split; assumption.
+Qed.
+
+(* the hand-off made in the middle of the step is the hand-off of a reap on the state the step has reached then: it
+   is queued BEHIND whatever waits, and nothing else of the queue / seen-set / taken list is touched *)
+Lemma mid_handoff max gt s ts p : up s = true ->
+  let x := apply_acts s (mid_before s ts p) in
+  writes_of (item_acts max gt s (IMid ts p)) =
+    writes_of (mid_before s ts p) ++ writes_of (reap_acts max x) ++ writes_of (mid_after s ts p).
+Proof.
+  intros Hup x. cbn [item_acts]. rewrite Hup. unfold mid_reap. fold x.
+  assert (W : forall a b, writes_of (a ++ b) = writes_of a ++ writes_of b).
+  { induction a as [|[w|y] a IH]; intros b; cbn [app writes_of]; [reflexivity | rewrite IH; reflexivity | apply IH]. }
+  rewrite !W. reflexivity.
+Qed.
+
+Lemma execfail_retried max gt s ts ts' b q lt :
+  up s = true -> queue s = b :: q -> nth_error (blocks s) (th s) = None -> last_time s = Some lt ->
+  before ts lt = false -> sh s = th s ->
+  let s1 := step max gt s (IExecFail ts) in
+  let s2 := step max gt s1 (IRun (AProduce ts')) in
+  observe max gt s (IExecFail ts) = (12%N, [WQDel b; WMeta; WBlock (S (th s)) b ts false]) /\
+  queue s1 = q /\ released s1 = released s ++ [b] /\ th s1 = th s /\ up s1 = true /\
+  blocks s2 = blocks s ++ [{| b_txs := b; b_time := ts; b_signed := true |}] /\ th s2 = S (th s) /\ sh s2 = S (th s) /\
+  queue s2 = q /\ released s2 = released s ++ [b] /\
+  observe max gt s1 (IRun (AProduce ts')) = (3%N, [WBlock (S (th s)) b ts true; WState (S (th s)); WHeight (S (th s))]).
+Proof.
+  intros Hup Hq Hp Hl Hb Hs. pose proof (last_time_length s lt Hl Hp) as Hlen.
+  assert (EL : produce_acts ts s = (AW (WQDel b) :: AW WMeta :: AW (WBlock (S (th s)) b ts false) :: commit_tail (S (th s)) b ts, OCommitted)).
+  { unfold produce_acts. cbv zeta. unfold last_time in Hl. rewrite Hl, Hp, Hq, Hb. reflexivity. }
+  cbv zeta.
+  set (eb := {| b_txs := b; b_time := ts; b_signed := false |}).
+  assert (E1 : step max gt s (IExecFail ts) =
+               set_blocks (blocks s ++ [eb]) (set_released (released s ++ [b]) (set_queue q s))).
+  { cbn [step item_acts]. unfold execfail_acts_of. rewrite Hup, EL. unfold commit_tail. cbn [until_exec fst].
+    unfold apply_acts. cbn [fold_left apply_act apply_wr pred blocks set_released set_queue queue].
+    rewrite Hq. cbn [tl]. rewrite <- Hlen, set_nth_length. reflexivity. }
+  rewrite E1.
+  assert (EO : observe max gt s (IExecFail ts) = (12%N, [WQDel b; WMeta; WBlock (S (th s)) b ts false])).
+  { cbn [observe item_acts]. unfold execfail_acts_of. rewrite Hup, EL. reflexivity. }
+  set (s1 := set_blocks (blocks s ++ [eb]) (set_released (released s ++ [b]) (set_queue q s))).
+  assert (EL1 : produce_acts ts' s1 = (commit_tail (S (th s)) b ts, OCommitted)).
+  { unfold produce_acts. cbv zeta. subst s1. cbn [th sh blocks set_blocks set_released set_queue].
+    assert (X : exists lt', (match th s with O => Some None | S k => match nth_error (blocks s ++ [eb]) k with Some b1 => Some (Some (b_time b1)) | None => None end end) = Some lt').
+    { destruct (th s) as [|k]; [eexists; reflexivity|].
+      destruct (nth_error (blocks s ++ [eb]) k) eqn:E0; [eexists; reflexivity | apply nth_error_None in E0; rewrite app_length in E0; cbn in E0; lia]. }
+    destruct X as [lt' ->]. rewrite <- Hlen at 1. rewrite nth_error_snoc, Hs, Nat.eqb_refl. reflexivity. }
+  assert (E2 : step max gt s1 (IRun (AProduce ts')) =
+               set_th (S (th s)) (set_sh (S (th s)) (set_blocks (blocks s ++ [{| b_txs := b; b_time := ts; b_signed := true |}])
+                 (set_mem (filter (fun t => negb (memb t b)) (mem s1)) s1)))).
+  { cbn [step item_acts acts_of pre fst]. replace (up s1) with true by (subst s1; cbn; symmetry; exact Hup).
+    rewrite EL1. cbn [fst]. unfold commit_tail, apply_acts.
+    cbn [fold_left apply_act apply_wr pred blocks set_mem set_blocks set_sh set_th].
+    subst s1. cbn [blocks set_blocks set_released set_queue]. rewrite <- Hlen, set_nth_last. reflexivity. }
+  rewrite E2.
+  assert (EO2 : observe max gt s1 (IRun (AProduce ts')) = (3%N, [WBlock (S (th s)) b ts true; WState (S (th s)); WHeight (S (th s))])).
+  { cbn [observe item_acts acts_of]. replace (up s1) with true by (subst s1; cbn; symmetry; exact Hup). rewrite EL1. reflexivity. }
+  repeat split; try assumption; reflexivity.
 Qed.
